@@ -1,4 +1,5 @@
 import os
+import re
 import xml.etree.ElementTree as ElementTree
 
 from prophyc import model, six
@@ -110,6 +111,17 @@ def make_typedef(xml_elem):
         )
 
 
+def wrap_negative(value):
+    """ Enumerators and discriminators are unsigned 32-bit on the wire: a negative literal wraps. """
+    try:
+        int_value = int(value, 0)
+        if int_value < 0:
+            value = "0x{:X}".format(0x100000000 + int_value)
+    except ValueError:
+        pass
+    return value
+
+
 def make_enum(xml_elem):
     def check_for_duplicates(enum_obj):
         values = set()
@@ -123,16 +135,9 @@ def make_enum(xml_elem):
         members = []
         for member in xml_elem:
             require_attributes(member, "name", "value")
-            value = member.get('value')
-            try:
-                int_value = int(value, 0)
-                if int_value < 0:
-                    value = "0x{:X}".format(0x100000000 + int_value)
-            except ValueError:
-                pass
             members.append(model.EnumMember(
                 member.get("name"),
-                expand_operators(value),
+                expand_operators(wrap_negative(member.get('value'))),
                 docstring=get_docstr(member))
             )
 
@@ -157,7 +162,7 @@ def make_struct_members(xml_elem, dynamic_array=False):
             size = dimension.get("size", None)
             size2 = dimension.get("size2", None)
             if size2:
-                size = "{}*{}".format(size, size2)
+                size = "{}*{}".format(*[x if re.match(r"^\w+$", x or "") else "({})".format(x) for x in (size, size2)])
             if optional:
                 yield model.StructMember("has_" + xml_elem_name, "u32", docstring="implicit enabler for optional field")
 
@@ -201,7 +206,7 @@ def make_union(xml_elem):
             members.append(model.UnionMember(
                 member.get("name"),
                 member.get("type"),
-                member.get("discriminatorValue"),
+                wrap_negative(member.get("discriminatorValue")),
                 docstring=get_docstr(member),
             ))
         return model.Union(xml_elem.get('name'), members, docstring=get_docstr(xml_elem))
